@@ -7,6 +7,7 @@ import WrapModel.Model.Dump
 import WrapModel.Lemmas.AgreeLemmas
 import WrapModel.Lemmas.TypeRoundTrip
 import WrapModel.Lemmas.ModuleRoundTrip
+import WrapModel.Lemmas.FuelBound
 
 namespace WrapModel.Props.C01
 open WrapModel
@@ -84,10 +85,13 @@ theorem C01_module_roundtrip (m : Module) (hwf : DeclsWF m) (n : Nat) (hn : decl
   (lift (Parse.pmodule n) hs).1 _ _ (pmodule_lex m hwf n hn)
 
 open Tok Spec in
-/-- the same for the entry point `parseModule` (whose fuel is the length of the text plus two) -/
-theorem C01_parseModule_roundtrip (m : Module) (hwf : DeclsWF m) (text : String)
-    (hfuel : declsFuel m ≤ text.toList.length + 2) (hs : Spells (lexemes m) text.toList) :
+/-- **C01, the entry point**: `parseModule text = ok m` for every well-formed module `m` and every text that spells its
+    lexemes.  No fuel hypothesis: the fuel `4·|text| + 2` of `parseModule` is proved sufficient (`declsFuel_le_text`). -/
+theorem C01_parseModule_roundtrip (m : Module) (hwf : DeclsWF m) (text : String) (hs : Spells (lexemes m) text.toList) :
     Parse.parseModule text = .ok m := by
+  have hfuel : declsFuel m ≤ 4 * text.toList.length + 2 := by
+    have := declsFuel_le_text m hwf text.toList hs
+    omega
   obtain ⟨rest, hrun, _⟩ := C01_module_roundtrip m hwf _ hfuel text.toList hs
   simp [Parse.parseModule, hrun]
 
